@@ -139,7 +139,17 @@ fn tamper_oracle(c: &TamperCase, rec: &Rec) -> R {
     let table = table_for(a);
     let (label, repl) = &table[c.entry % table.len()];
     let bytes = img.with_at(c.atom, repl);
-    let expect = decode_ref(&img, &bytes);
+    let mut expect = decode_ref(&img, &bytes);
+    if c.ty == "Error" && a.kind == Kind::Tag {
+        // the enum `Error` is the one variable-length type: a changed tag changes the layout
+        // (tag 0 = AmountTooLarge(u64): 12 bytes, tag 1 = InsufficientFunds: 4 bytes), so the
+        // honest value's template does not apply; state the expectation directly
+        expect = match u32::from_le_bytes(repl[..4].try_into().unwrap()) {
+            0 => bytes.len() >= 12,
+            1 => bytes.len() >= 4,
+            _ => false,
+        };
+    }
     let got = (t.decode)(&bytes);
     rec.eval(1);
     if got.is_ok() != expect {
